@@ -39,6 +39,8 @@ LEVEL = {
                    "exception / cancellation running __aexit__ is the language's async-with guarantee.",
     "technique": "static analysis: effect-freedom, escape, exactly-once path and typestate (single-use) rules; islice table by abstract evaluation",
 }
+LEVEL["decided"] += ' (R08.7) inside the block every tool leaves a shared iterator where the stdlib tool would (tool tables: yields, items taken, end); (R08.8) no tool reads ahead of what it yields (R05.3, shared).'
+LEVEL["technique"] += '; tool tables shared'
 
 CTX = "asynctools._ScopedAsyncIteratorContext"
 SCOPED = "asynctools._ScopedAsyncIterator"
